@@ -163,6 +163,25 @@ def corpus():
     three = {"g": [[], [0], [1]], "fmt": "pack-0.92", "style": 0, "meta": meta + [meta[1]],
              "ops": [dirfile, [["mv", b"d1", None, "dir2"]], [["exec", b"f1", True]]]}
     out.append(bcase(three, 0, 2))                                                       # roll-up 0..2
+    # an executable binary file added by an OLDER revision of the range (roll-up: 'added' action with all five
+    # fields path // file-id // last-changed // executable // encoding), also arriving through a merge parent
+    meta3 = meta + [["m3", "Joe <joe@example.com>", 1700000200, 0, 0, []]]
+    binx = [["add", b"f2", None, "tool", "file", b"\x00\xff\x01binary\n", True]]
+    for fmt, bfmts in (("pack-0.92", ("0.9", "0.8", "4")), ("2a", ("0.9",))):
+        rolled = {"g": [[], [0], [1]], "fmt": fmt, "style": 0, "meta": meta3,
+                  "ops": [dirfile, binx, [["mod", b"f1", b"x\ny\n"]]]}
+        for bf in bfmts:
+            out.append(bcase(rolled, 0, 2, bfmt=bf))
+    viamerge = {"g": [[], [0], [0], [1, 2], [3]], "fmt": "pack-0.92", "style": 0, "meta": meta3 + [meta3[2], meta3[2]],
+                "ops": [dirfile, [["add", b"f2", None, "tool", "file", b"#!/bin/sh\n", True]],
+                        [["mod", b"f1", b"x\ny\n"]], [["merge", 1]], [["mod", b"f1", b"z\n"]]]}
+    out.append(bcase(viamerge, 0, 4))       # the merge is an older revision here: its added file is base64-encoded
+    out.append(bcase(viamerge, 2, 3))
+    # tampering confined to the section of an OLDER revision of a multi-revision 0.9/0.8 bundle
+    for bf in ("0.9", "0.8"):
+        for find, off, byte in ((b"#   m2", 4, 110), (b"executable:yes", 11, 110), (b"# committer: Joe", 13, 88)):
+            out.append({"k": "btamper", "h": rolled if bf == "0.9" else dict(rolled, fmt="pack-0.92"), "base": 0, "tgt": 2,
+                        "bfmt": bf, "stream": True, "pos": 0, "byte": byte, "cut": 0, "find": find, "off": off})
     # a merge whose left-hand parent was installed 12 inventories earlier (RevisionInstaller's LRUCache(10))
     side = 12
     lg = [[], [0]] + [[1 + i] for i in range(side)] + [[1, 1 + side]]
@@ -424,6 +443,13 @@ def _hist_cases(rng, tier):
                    "pos": rng.choice([rng.randrange(10 ** 6), rng.randrange(40), 10 ** 6 - 1 - rng.randrange(40)]),
                    "byte": rng.choice([0, 10, 32, 48, 65, 97, 255, rng.randrange(256)]),
                    "cut": rng.choice([0, 0, 0, 0, 0, 0, 0, 0, 30, 200])}     # sometimes a truncation instead
+        multi = [(b, t) for b, t in pairs if len(H.bundled_revs(spec, b, t)) >= 2
+                 and not any(p >= n for r in H.bundled_revs(spec, b, t) for p in g[r])]
+        for base, tgt in multi[:(3 if quick else 6)]:
+            # only the older revisions' sections of a patch-based bundle are touched
+            yield {"k": "btamper", "h": spec, "base": base, "tgt": tgt, "bfmt": "0.8" if fmt == "pack-0.92" and rng.random() < 0.3 else "0.9",
+                   "stream": True, "pos": rng.randrange(10 ** 6), "byte": rng.choice([48, 65, 97, 110, 120, 32]),
+                   "cut": 0, "zone": "old"}
         for _ in range(2 if quick else 5):
             rel = [(a, b) for a in range(n) for b in range(n)
                    if H.present_ancestors(g, [a]) & H.present_ancestors(g, [b])]
